@@ -108,9 +108,12 @@ func domainOf(u string) string {
 
 // third-party-invite keys (deterministic)
 var (
-	tpiPub, tpiPriv = keyFromSeed("tpi-identity-server")
-	tpiOtherPub, _  = keyFromSeed("tpi-other-key")
-	_               = tpiPriv
+	tpiPub, tpiPriv  = keyFromSeed("tpi-identity-server")
+	tpiOtherPub, _   = keyFromSeed("tpi-other-key")
+	_                = tpiPriv
+	_, tpiStrayPriv  = keyFromSeed("tpi-stray-signer")
+	tpiUnusedPub, _  = keyFromSeed("tpi-unused-key")
+	tpiUnusedPub2, _ = keyFromSeed("tpi-unused-key-2")
 )
 
 func keyFromSeed(s string) (ed25519.PublicKey, ed25519.PrivateKey) {
@@ -361,9 +364,15 @@ func concretise(sc *authScenario, variant int) (*concreteAuth, error) {
 		if st.TPI == "nomatch" {
 			pub = tpiOtherPub
 		}
+		keys := []interface{}{map[string]interface{}{"public_key": base64.RawStdEncoding.EncodeToString(pub)}}
+		if variant%3 == 2 {
+			// ... and listed keys under which nothing is signed do not change it either
+			keys = []interface{}{map[string]interface{}{"public_key": base64.RawStdEncoding.EncodeToString(tpiUnusedPub)}, keys[0],
+				map[string]interface{}{"public_key": base64.RawStdEncoding.EncodeToString(tpiUnusedPub2)}}
+		}
 		content := map[string]interface{}{
 			"display_name": "someone",
-			"public_keys":  []interface{}{map[string]interface{}{"public_key": base64.RawStdEncoding.EncodeToString(pub)}},
+			"public_keys":  keys,
 		}
 		if err := addState("tpi", "m.room.third_party_invite", "tok1", userIDs[st.TPISender], content); err != nil {
 			return nil, err
@@ -467,6 +476,20 @@ func concretise(sc *authScenario, variant int) (*concreteAuth, error) {
 			signedJSON, err := gmsl.SignJSON("idserver", "ed25519:0", tpiPriv, raw)
 			if err != nil {
 				return nil, err
+			}
+			if variant%3 != 0 {
+				// the rule is "any signature matches any listed key": signatures that verify under no listed key (a
+				// second key ID of the same server, another server) never change the verdict, whatever order they
+				// are looked at in
+				if signedJSON, err = gmsl.SignJSON("idserver", "ed25519:zz", tpiStrayPriv, signedJSON); err != nil {
+					return nil, err
+				}
+				if signedJSON, err = gmsl.SignJSON("idserver", "ed25519:aa", tpiStrayPriv, signedJSON); err != nil {
+					return nil, err
+				}
+				if signedJSON, err = gmsl.SignJSON("another.idserver", "ed25519:0", tpiStrayPriv, signedJSON); err != nil {
+					return nil, err
+				}
 			}
 			c["third_party_invite"] = map[string]interface{}{"display_name": "someone", "signed": json.RawMessage(signedJSON)}
 		}
